@@ -1,31 +1,14 @@
 //go:build verif
 
 // Export shim for the C11 correspondence harness (injected with `go build -overlay`, never part of /repo).
+// Everything else the harness reads of a ClusterInfo it reads through public accessors or by reflection (cmd/c11/peek.go).
 package clusters
 
 import (
 	"k8s.io/client-go/rest"
 
 	proxyv1alpha1 "github.com/kubewharf/kubegateway/pkg/apis/proxy/v1alpha1"
-	gatewayflowcontrol "github.com/kubewharf/kubegateway/pkg/flowcontrols"
 )
-
-// VerifC11Policies returns the dispatch policies currently in force (currentDispatchPolicies).
-func VerifC11Policies(c *ClusterInfo) []proxyv1alpha1.DispatchPolicy { return c.loadDispatchPolicies() }
-
-// VerifC11Logging returns the logging configuration currently in force.
-func VerifC11Logging(c *ClusterInfo) proxyv1alpha1.LoggingConfig { return c.loadLoggingConfig() }
-
-// VerifC11Limiter returns the cluster's upstream limiter.
-func VerifC11Limiter(c *ClusterInfo) gatewayflowcontrol.UpstreamLimiter { return c.flowcontrol }
-
-// VerifC11PickerUpstreams returns the endpoints a picker returned by MatchAttributes chooses from.
-func VerifC11PickerUpstreams(p EndpointPicker) []string {
-	if s, ok := p.(*endpointPickStrategy); ok {
-		return s.upstreams
-	}
-	return nil
-}
 
 // VerifC11BuildRESTConfig is buildClusterRESTConfig: CreateClusterInfo is this, NewEmptyClusterInfo and Sync.
 func VerifC11BuildRESTConfig(cluster *proxyv1alpha1.UpstreamCluster) (*rest.Config, error) {
